@@ -116,8 +116,24 @@ def rule_release(ctx):
                           "after the instance's engine connection is opened there is a path out of patch() that never closes it",
                           witness=g.fmt_path(path))
     # C20.b guard dominates acquires
+    def leads_to_raise(b):
+        """does one side of the branch raise within a few events (`if <already patched>: raise ...`)?"""
+        todo, seen = [(s_, 0) for s_, k_ in b.succ if k_ != "x"], set()
+        while todo:
+            x, d = todo.pop()
+            if x.id in seen or d > 4:
+                continue
+            seen.add(x.id)
+            if x.kind == "raise":
+                return True
+            if x.kind in ("call", "store"):
+                todo += [(s_, d + 1) for s_, k_ in x.succ if k_ != "x"]
+        return False
+
+    raising = [n for n in g.nodes if n.kind == "branch" and n.ast is not None and "MagicMock" in norm(n.ast) and leads_to_raise(n)]
+    # the other arm of such a test is what every later event passes through
     guards = [n for n in g.nodes if n.kind == "assert" and "MagicMock" in norm(n.ast)] + [
-        n for n in g.nodes if n.kind == "raise" and any("MagicMock" in norm(p.ast) for p, _ in n.pred if p.kind == "branch")]
+        n for n in g.nodes if n.kind == "branch" and any(n.ast is r_.ast and n is not r_ for r_ in raising)]
     dom = g.dominators()
     okg = bool(guards) and all(any(gd.id in dom.get(a.id, set()) for gd in guards) for a in acquires)
     ctx.ob("C20.b", "already-patched guard dominates every acquiring event", okg, m.loc(fn))
@@ -354,6 +370,8 @@ def rule_split_forms(ctx):
                 for p in explore(prog, Hooks, run, max_paths=8):
                     n += 1
                     got = None
+                    if p.outcome == "return" and isinstance(p.value, Obj) and getattr(p.value, "tuple_fields", None):
+                        p.value = Tup([p.value.attrs.get(f_) for f_ in p.value.tuple_fields])  # a NamedTuple result is the pair
                     if p.outcome == "return" and isinstance(p.value, (Tup, Lst)) and len(p.value.items) == 2 and all(
                             isinstance(x, (Lst, Tup)) and all(isinstance(y, Const) for y in x.items) for x in p.value.items):
                         got = tuple([y.v for y in x.items] for x in p.value.items)
